@@ -36,3 +36,73 @@ M('c03_time_plus_one', 'C03', (T, """                atom_inner_site[time + 1],
 M('c03_swap_fill', 'C03', (T, "return bfill(self.states, fill_val=NOSITE, axis=0)", "return ffill(self.states, fill_val=NOSITE, axis=0)"))
 M('c03_drop_inner_only_rows', 'C03', (T, "        time = np.unique(np.concatenate((i, i2)))\n", "        time = np.unique(np.concatenate((i, i2))) if len(i) else i\n"))
 M('c03_ffill_first_col', 'C03', ('utils.py', "    idx = np.where(arr != fill_val, np.arange(arr.shape[1]), 0)\n", "    idx = np.where(arr != fill_val, np.arange(arr.shape[1]), 1 if arr.shape[1] > 7 else 0)\n"))
+# ---- C04 -------------------------------------------------------------------------------------
+J = 'jumps.py'
+M('c04_lose_plus_one', 'C04', (J, "events['stop time'] = events['time'] + 1", "events['stop time'] = events['time']"))
+M('c04_count_return_as_jump', 'C04', (J, """                if event['destination site'] == fromevent['start site']:
+                    fromevent = None
+                    candidate_jump = None
+""", """                if event['destination site'] == fromevent['start site'] and False:
+                    fromevent = None
+                    candidate_jump = None
+"""), (J, "    jumps = jumps[jumps['start site'] != jumps['destination site']].reset_index()", "    jumps = jumps.reset_index()"))
+M('c04_swap_origin_dest', 'C04', (J, """                    event['start site'] = fromevent['start site']
+                    event['start time'] = fromevent['start time']
+                    jumps.append(event)
+""", """                    event['start site'] = event['destination site']
+                    event['destination site'] = fromevent['start site']
+                    event['start time'] = fromevent['start time']
+                    jumps.append(event)
+"""))
+M('c04_residence_le', 'C04', (J, "if event['start time'] - candidate_jump['start time'] >= minimal_residence:", "if event['start time'] - candidate_jump['start time'] <= minimal_residence:"))
+M('c04_start_from_arrival', 'C04', (J, """                    event['start site'] = fromevent['start site']
+                    event['start time'] = fromevent['start time']
+                    jumps.append(event)
+""", """                    event['start site'] = fromevent['start site']
+                    jumps.append(event)
+"""))
+M('c04_fromevent_not_reset_on_candidate', 'C04', (J, """                    candidate_jump = event
+                    fromevent = None
+""", """                    candidate_jump = event
+"""))
+M('c04_long_transit_dropped', 'C04', (J, """                elif event['destination inner site'] != -1:
+                    event['start site'] = fromevent['start site']""", """                elif event['destination inner site'] != -1 and event['start time'] - fromevent['start time'] < 7:
+                    event['start site'] = fromevent['start site']"""))
+# ---- C01 -------------------------------------------------------------------------------------
+TR = 'trajectory.py'
+M('c01_revert_F1', 'C01', (TR, "        coords[coords == 1] = 0\n", ""))
+M('c01_drop_mod', 'C01', (TR, "        coords = np.mod(self.coords, 1)\n", "        coords = np.array(self.coords)\n"))
+M('c01_cumdisp_no_rounding', 'C01', (TR, "        return np.cumsum(self.displacements, axis=0)\n", "        p = self.positions\n        return p - p[0]\n"))
+M('c01_lengths_no_metric', 'C01,C06', (TR, "    tmp = np.dot(vectors, metric_tensor)\n", "    tmp = np.dot(vectors, np.diag(np.diag(metric_tensor)))\n"))
+M('c01_displacement_wrap_gt', 'C01', (TR, "        self.to_displacements()\n        return self.coords\n", "        self.to_displacements()\n        self.coords = np.where(self.coords > 0.49, self.coords - 1, self.coords)\n        return self.coords\n"))
+# ---- C06 -------------------------------------------------------------------------------------
+M('c06_msd_fractional', 'C06', (TR, "        r = lattice.get_cartesian_coords(r)\n\n        pos = np.transpose", "        r = r * np.mean(lattice.abc)\n\n        pos = np.transpose"))
+M('c06_msd_s1_minus_s2', 'C06', (TR, "        msd = S1 - 2 * S2\n", "        msd = S1 - S2\n"))
+M('c06_square_of_mean', 'C06', ('metrics.py', "        msd = np.mean(distances[:, -1] ** 2)  # Angstrom^2", "        msd = np.mean(distances[:, -1]) ** 2  # Angstrom^2"))
+M('c06_msd_window_norm', 'C06', (TR, "        S2 = np.sum(fft_result, axis=-1) / (n_times - np.arange(n_times)[None, :])", "        S2 = np.sum(fft_result, axis=-1) / (n_times - np.arange(n_times)[None, :] + (np.arange(n_times)[None, :] > 40))"))
+M('c06_fft_no_padding', 'C06', (TR, "np.fft.fft(pos, n=2 * n_times, axis=-2)", "np.fft.fft(pos, n=2 * n_times - (n_times > 30) * (n_times // 2), axis=-2)"))
+# ---- C13 -------------------------------------------------------------------------------------
+M('c13_revert_F9_assert', 'C13', (TR, "                assert isinstance(sp, (Species, Element)), f'got {type(sp)=}'\n                if sp.symbol not in floating_species:", "                assert isinstance(sp, Species), f'got {type(sp)=}'\n                if sp.symbol not in floating_species:"))
+M('c13_revert_F9_objects', 'C13', (TR, "                    species.add(sp.symbol)\n", "                    species.add(sp)\n"))
+M('c13_revert_F9_substring', 'C13', (TR, "            if isinstance(floating_species, str):\n                floating_species = [floating_species]\n\n", ""))
+M('c13_drift_from_positions', 'C13', (TR, "            displacements = self.filter(species=fixed_species).displacements\n", "            displacements = self.filter(species=fixed_species).positions\n"))
+M('c13_base_positions_dropped', 'C13', (TR, "            base_positions=self.base_positions,\n            time_step=self.time_step,\n        )\n\n    def filter", "            base_positions=np.mod(self.base_positions, 1) * 0 + self.positions[-1],\n            time_step=self.time_step,\n        )\n\n    def filter"))
+M('c13_drift_all_atoms', 'C13', (TR, "        drift = self.drift(fixed_species=fixed_species, floating_species=floating_species)\n", "        drift = self.drift()\n"))
+M('c13_metadata_dropped', 'C13', (TR, "            coords=self.displacements - drift,\n            lattice=self.get_lattice(),\n            metadata=self.metadata,\n", "            coords=self.displacements - drift,\n            lattice=self.get_lattice(),\n"))
+M('c13_fixed_substring', 'C13,C15', (TR, "            idx.append(sp.symbol in species)\n", "            idx.append(any(sp.symbol in s for s in species))\n"))
+# ---- C14 -------------------------------------------------------------------------------------
+ME = 'metrics.py'
+M('c14_z_not_squared', 'C14', (ME, "(elementary_charge**2) * (z_ion**2) * tracer_diff", "(elementary_charge**2) * (z_ion) * tracer_diff"))
+M('c14_no_particle_density', 'C14', (ME, "* tracer_diff * self.particle_density()\n", "* tracer_diff * len(self.trajectory.species)\n"))
+M('c14_com_unweighted', 'C14', (TR, "center_of_mass = np.average(positions_no_pbc, axis=1, weights=weights).reshape(-1, 1, 3)", "center_of_mass = np.average(positions_no_pbc, axis=1).reshape(-1, 1, 3)"))
+M('c14_density_per_A3', 'C14', (ME, "        volume_m3 = volume_ang * angstrom**3\n", "        volume_m3 = volume_ang * angstrom**2\n"))
+M('c14_haven_inverted', 'C14', (ME, """        return self.tracer_diffusivity(
+            dimensions=dimensions
+        ) / self.tracer_diffusivity_center_of_mass(dimensions=dimensions)""", """        return self.tracer_diffusivity_center_of_mass(
+            dimensions=dimensions
+        ) / self.tracer_diffusivity(dimensions=dimensions)"""))
+M('c14_volume_from_lengths', 'C14', (ME, "        volume_ang = lattice.volume\n", "        volume_ang = float(np.prod(lattice.abc))\n"))
+M('c14_std_uses_first_metric', 'C14', (ME, "        mean_diffusivities = FloatWithUnit(np.mean(diffusivities), 'm^2 s^-1')", "        mean_diffusivities = FloatWithUnit(np.median(diffusivities), 'm^2 s^-1')"))
+M('c14_amplitudes_strip_wrong', 'C14', (ME, "            subarrays = np.array_split(speed_range, splits[1:-1] + 1)", "            subarrays = np.array_split(speed_range, splits[1:-1] + 1)[:-1] if len(splits) > 6 else np.array_split(speed_range, splits[1:-1] + 1)"))
+M('c14_meanfreq_fs_ignored', 'C14', (ME, "        freq_mean = meanfreq(speed, fs=self.trajectory.sampling_frequency)", "        freq_mean = meanfreq(speed, fs=1e15)"))
+M('c14_com_wrapped_positions', 'C14', (TR, "        positions_no_pbc = self.base_positions + self.cumulative_displacements\n", "        positions_no_pbc = self.positions\n"))
